@@ -424,13 +424,19 @@ impl Sim for World {
         }
         match st.input.pop_front() {
             Some(Chunk::Bytes(mut b)) => {
+                let mut whole = true;
                 if b.len() > buf.len() {
                     let rest = b.split_off(buf.len());
                     st.input.push_front(Chunk::Bytes(rest));
+                    whole = false;
                 }
                 buf[..b.len()].copy_from_slice(&b);
                 st.delivered.extend_from_slice(&b);
-                st.chunks_delivered += 1;
+                // counted when the last piece of a chunk has been handed over (a chunk larger
+                // than the reader's buffer takes several reads)
+                if whole {
+                    st.chunks_delivered += 1;
+                }
                 let text = String::from_utf8_lossy(&b).replace('\n', "\\n").replace('\r', "\\r");
                 st.ev(&format!("in {}", text));
                 Ok(b.len())
